@@ -308,7 +308,10 @@ def _run_coq_shard(args):
             f.write(f"Definition case_{i} := {t}.\n")
             f.write(f"Eval vm_compute in case_{i}.\n")
     cmd = ["coqc", "-noglob"] + unit_q_flags(unit) + ["-Q", workdir, f"KVcases{idx}", path]
-    rc, out = sh(cmd, cwd=workdir, timeout=1800)
+    rc, out = sh(cmd, cwd=workdir, timeout=3600)
+    if rc == 124:
+        # a timeout says something about the machine (load), not about koto: try once more, alone
+        rc, out = sh(cmd, cwd=workdir, timeout=10800)
     if rc != 0:
         return None, out
     vals = []
